@@ -246,8 +246,13 @@ def r3_space_check(ctx, F):
     for b in F.fns.values():
         for c in live_calls(b):
             if c.fn == aw.key:
-                owner = F.fns.get(b.owner) if b.owner else b
-                ok = owner is not None and owner.self_adt == FDW and any(x.name == "check_available_space" for x in live_calls(owner))
+                # closures (and, with async-io, the coroutine body and its closures) count with their enclosing method
+                chain = [b]
+                while chain[-1].owner and F.fns.get(chain[-1].owner) is not None and len(chain) < 6:
+                    chain.append(F.fns[chain[-1].owner])
+                owner = chain[-1]
+                family = chain + [x for x in F.fns.values() if x.owner == owner.key and x.kind == "coroutine"]
+                ok = owner.self_adt == FDW and any(x.name == "check_available_space" for y in family for x in live_calls(y))
                 ctx.check("R3-space-check", "account_written@%s" % (owner.name if owner else b.name), ok,
                           "account_written is called from %s, which performs no space check" % b.key, loc=c.loc())
     ctx.floor("R3-space-check", 40)
